@@ -510,7 +510,10 @@ func valueImmutable(t types.Type) bool {
 // module is as an argument of a sync/atomic function (no plain load, no plain store outside a
 // struct the storing function has just allocated).
 func (r *Run) atomicOnly(sname, field string, t types.Type) bool {
-	if strings.HasPrefix(namedOf(t), "sync/atomic.") {
+	switch namedOf(t) {
+	case "sync/atomic.Int32", "sync/atomic.Int64", "sync/atomic.Uint32", "sync/atomic.Uint64", "sync/atomic.Uintptr", "sync/atomic.Bool":
+		// a scalar: there is nothing behind it that could be changed in place (atomic.Value and
+		// atomic.Pointer hold a reference — a map kept in one is still written without a lock)
 		return true
 	}
 	n := 0
